@@ -2,6 +2,7 @@
 #include <algorithm>
 #include <cstdlib>
 #include <cstring>
+#include <cstdio>
 
 using namespace ref;
 static const int knightD[8][2] = {{1,2},{2,1},{2,-1},{1,-2},{-1,-2},{-2,-1},{-2,1},{-1,2}};
@@ -51,7 +52,7 @@ const std::vector<std::string>& trickyFens() {
         "8/8/8/4k3/8/8/3Q4/K6r w - - 0 1",
         "q7/8/8/8/k2p3R/8/4P3/4K3 w - - 0 1",
         "7k/8/8/1pP5/8/8/8/R3K3 w Q b6 0 1",
-        "4k3/8/8/8/1pP5/8/8/4K2r b - c3 0 1",
+        "8/8/8/8/kpP4R/8/8/4K3 b - c3 0 1",
         "rnbqkbnr/ppp1pppp/8/3pP3/8/8/PPPP1PPP/RNBQKBNR w KQkq d6 0 3",
         "2r1k2r/8/8/8/8/8/8/R3K2R w KQk - 0 1",
         "r3k2r/8/8/8/8/8/6p1/R3K2R b KQkq - 0 1",
@@ -75,6 +76,10 @@ const std::vector<std::string>& stormFens() {
     };
     return v;
 }
+
+namespace { struct ListCheck { ListCheck() {
+    for (auto* lst : { &trickyFens(), &stormFens() }) for (auto& f : *lst) { Pos p; if (!parseFEN(f, p) || !plausible(p) || !countsOk(p)) { fprintf(stderr, "posgen: bad built-in FEN %s\n", f.c_str()); _Exit(2); } }
+} } listCheck; }
 
 Mv pickMove(Rng& r, const Pos& p, const std::vector<Mv>& l, Style st) {
     if (st == UNIFORM) return l[r.below((int)l.size())];
